@@ -5,7 +5,9 @@ mod ops_bits;
 mod ops_cmp;
 #[path = "../ops_norm.rs"]
 mod ops_norm;
+#[path = "../ops_fromf.rs"]
+mod ops_fromf;
 
 fn main() {
-    verif_harness::run_main(&[ops_bits::dispatch, ops_cmp::dispatch, ops_norm::dispatch]);
+    verif_harness::run_main(&[ops_bits::dispatch, ops_cmp::dispatch, ops_norm::dispatch, ops_fromf::dispatch]);
 }
